@@ -17,7 +17,7 @@ for p in props:
             thorough_cmd="./run_check.py %s --tier thorough" % cid,
             evidence_file="/verif/evidence/%s.json" % cid,
             replay_cmd_template="./run_check.py %s --replay {path}" % cid,
-            engine="rapid+gofuzz",
+            engine="rapid+gofuzz" if any(pt.get("kind") == "fuzz" for pt in c["parts"]) else "rapid",
             level_claimed=dict(category="exploration", text=c["level_text"], design_ref=c.get("design_ref", "DESIGN.md section 4 " + cid)),
             level_note=c["level_note"],
             technique=c["technique"],
@@ -34,8 +34,8 @@ m = dict(
         source_commits=HOOK_COMMITS,
         add_only=True,
     ),
-    engines=[dict(name="rapid+gofuzz", path="/verif/run_check.py", serves_properties=sorted(CHECKS),
-                  kind_free_text="property-based testing with pgregory.net/rapid v1.3.0 (sources overlaid from the module cache as internal/vrapid, so /repo/go.mod is untouched) and Go native fuzzing via rapid.MakeFuzz; harness test files are overlaid into the eino packages")],
+    engines=[dict(name="rapid", path="/verif/run_check.py", serves_properties=sorted(CHECKS),
+                  kind_free_text="property-based testing with pgregory.net/rapid v1.3.0 (sources overlaid from the module cache as internal/vrapid, so /repo/go.mod is untouched) ; properties with engine rapid+gofuzz additionally run Go native fuzzing of the same property function in the thorough tier; harness test files are overlaid into the eino packages")],
     checks=checks,
     notes="Every check rebuilds from /repo's working tree (VERIF_REPO overrides) through go's -overlay; exit 0/1/2 = held / VIOLATION / inconclusive. See DESIGN.md.",
     not_applicable=na,
